@@ -68,7 +68,21 @@ def main():
                         print("FINDING %s %s:%d %s" % (fd.key, fd.file, fd.line, fd.msg))
                         n += 1
             return 1 if n else 0
-        return decide(pid, results, tier, t0)
+        controls = None
+        if tier == "thorough":
+            from vstat.controls import run_controls
+            baseline = {fd.key for r in results for fd in r.findings}
+            controls = run_controls(pid, baseline, set(PROPERTY_RULES[pid]))
+            for c in controls:
+                print("CONTROL %s: %s%s" % (c["control"], c["status"],
+                                            (" by " + ", ".join(c["by"]) if isinstance(c.get("by"), list) else (" " + str(c.get("by") or c.get("why") or "")))))
+        rc = decide(pid, results, tier, t0, controls=controls)
+        if rc == 0 and controls:
+            applied = [c for c in controls if c["status"] != "skipped"]
+            if applied and all(c["status"] == "missed" for c in applied):
+                print("ANALYSIS-BROKEN property=%s: none of the %d positive controls is detected any more" % (pid, len(applied)))
+                return 2
+        return rc
     except F.AnalysisBroken as e:
         print("ANALYSIS-BROKEN property=%s: %s" % (pid, e))
         return 2
